@@ -1033,6 +1033,9 @@ def rule_r15(ctx):
                                 written |= {k.value for k in it.keys if isinstance(k, ast.Constant) and isinstance(k.value, str)}
                             elif isinstance(it, (ast.Tuple, ast.List, ast.Set)):
                                 written |= {k.value for k in it.elts if isinstance(k, ast.Constant) and isinstance(k.value, str)}
+                                # a table of (key, value) pairs
+                                written |= {k.elts[0].value for k in it.elts if isinstance(k, (ast.Tuple, ast.List)) and k.elts
+                                            and isinstance(k.elts[0], ast.Constant) and isinstance(k.elts[0].value, str)}
     ctx.require(wsite is not None and bool(written), "serializer: writer of external_data entries not found")
     for k in sorted(keys):
         if k in _EXTERNAL_KEY_EXEMPT:
